@@ -607,7 +607,7 @@ Proof.
   { apply nofollow_tok; [reflexivity|intros l H; discriminate H]. }
   destruct (show_head e) as (t & Ht & _ & _ & _ & Hs).
   exists f. intros g n Hg Hn. unfold parse_primary_base, parens. cbn [app advance toks sla].
-  cbn [parse_literal]. rewrite <- app_assoc. cbn [app].
+  cbn [parse_literal parse_literal_gen]. rewrite <- app_assoc. cbn [app].
   pose proof (hd_tok_app _ (tk TRightParen :: rest) _ Ht) as Hh. apply hd_tok_inv in Hh as (m & r & Er).
   rewrite Er. rewrite peek_hd. rewrite teqb_neq by (destruct t; try discriminate). cbn [negb].
   rewrite <- Er. rewrite (Hf g n Hg Hn). cbn [bindp]. rewrite peek_hd.
@@ -769,7 +769,7 @@ Proof. apply (cp_atom UFalse (TIdentifier s_false)); try reflexivity. Qed.
 Lemma cp_numu n t : CP (UNumUnsigned n t).
 Proof.
   apply (cp_atom _ (TUnsignedNum n t)); try reflexivity. intros b rest Hnf pe n0.
-  unfold parse_primary_base. cbn [advance toks sla parse_literal].
+  unfold parse_primary_base. cbn [advance toks sla parse_literal parse_literal_gen].
   now rewrite (nf_nm 15 b rest TDoubleDot Hnf eq_refl).
 Qed.
 
@@ -986,7 +986,7 @@ Proof.
   intros HT b rest r s' Hnf HL. cbn [prec] in *. rewrite show_tuple.
   apply (ev_14 _ (UTupleLiteral es) (PState rest b)); [|exact HL].
   destruct es as [|x xs].
-  - exists 0%nat. intros g n _ _. unfold parse_primary_base. cbn [app advance toks sla parse_literal].
+  - exists 0%nat. intros g n _ _. unfold parse_primary_base. cbn [app advance toks sla parse_literal parse_literal_gen].
     rewrite peek_hd, teqb_refl. cbn [negb]. unfold expect. rewrite nm_hd, teqb_refl. reflexivity.
   - inversion HT as [|x' xs' Hx Hxs]; subst.
     destruct (show_head x) as (t & Ht & _ & _ & _ & Hs).
@@ -994,7 +994,7 @@ Proof.
     + destruct (Hx b (tk TComma :: tk TRightParen :: rest)) as [f1 H1].
       { apply nofollow_tok; [reflexivity|intros l H; discriminate H]. }
       exists (S f1). intros g n Hg Hn. destruct n as [|n]; [lia|].
-      unfold parse_primary_base. cbn [app advance toks sla parse_literal more_toks].
+      unfold parse_primary_base. cbn [app advance toks sla parse_literal parse_literal_gen more_toks].
       rewrite <- !app_assoc. cbn [app].
       pose proof (hd_tok_app _ (tk TComma :: tk TRightParen :: rest) _ Ht) as Hh.
       apply hd_tok_inv in Hh as (m & r' & Er). rewrite Er at 1. rewrite peek_hd.
@@ -1005,7 +1005,7 @@ Proof.
     + destruct (Hx b (more_toks (y :: ys) ++ tk TRightParen :: rest) (nofollow_more b (y :: ys) rest)) as [f1 H1].
       destruct (comma_ev (y :: ys) Hxs [x] b rest) as [f2 H2].
       exists (Nat.max f1 f2). intros g n Hg Hn.
-      unfold parse_primary_base. cbn [app advance toks sla parse_literal].
+      unfold parse_primary_base. cbn [app advance toks sla parse_literal parse_literal_gen].
       rewrite app_nil_r. rewrite <- !app_assoc.
       pose proof (hd_tok_app _ (more_toks (y :: ys) ++ [tk TRightParen] ++ rest) _ Ht) as Hh.
       apply hd_tok_inv in Hh as (m & r' & Er). rewrite Er at 1. rewrite peek_hd.
@@ -1548,3 +1548,53 @@ Module ProgramExamples.
     pp "fn f() -> u8 { 1u8 } ;" = None.
   Proof. repeat split; vm_compute; reflexivity. Qed.
 End ProgramExamples.
+
+(* ------------------------------------------------------------------ the literal mode
+   (Tokens::parse_literal, used by Literal::parse for argument texts) *)
+
+Module LiteralExamples.
+  Local Open Scope string_scope.
+  Import ParseExamples StmtExamples.
+  Definition pl (s : string) : option uexpr :=
+    let ts := toks_of s in
+    match parse_literal_text (fuel_for_tokens ts) ts with POk e _ => Some e | _ => None end.
+
+  (* scalars; a negative number is ONE token for the scanner when the digits follow the `-`
+     directly, so `-1` is a literal, `- 1` and `--1` are not *)
+  Example lit_scalars :
+    pl "true" = Some UTrue /\ pl "false" = Some UFalse /\ pl "5" = Some (n 5) /\ pl "5u8" = Some (UNumUnsigned 5 U8) /\
+    pl "-1" = Some (UNumSigned (-1) UnspecifiedS) /\ pl "-5i16" = Some (UNumSigned (-5) I16) /\
+    pl "- 1" = None /\ pl "--1" = None.
+  Proof. repeat split; vm_compute; reflexivity. Qed.
+
+  (* the whole input must be one literal; errors that do not stop the parser are errors; no
+     variables, no operators, no calls, no postfix forms *)
+  Example lit_rejected :
+    pl "5 6" = None /\ pl "true false" = None /\ pl "0u8..3u16" = None /\ pl "" = None /\ pl "x" = None /\
+    pl "1 + 2" = None /\ pl "(1 + 2)" = None /\ pl "[f(1)]" = None /\ pl "a.b" = None /\ pl "[x; 2]" = None /\
+    pl "E::V(x)" = None.
+  Proof. repeat split; vm_compute; reflexivity. Qed.
+
+  Example lit_tuples :
+    pl "(1, 2)" = Some (UTupleLiteral [n 1; n 2]) /\ pl "()" = Some (UTupleLiteral []) /\
+    pl "(1,)" = Some (UTupleLiteral [n 1]) /\ pl "(1)" = Some (n 1).
+  Proof. repeat split; vm_compute; reflexivity. Qed.
+
+  (* arrays: the size of a repeat must be a number in literal mode (`[1; N]` is rejected); ranges *)
+  Example lit_arrays :
+    pl "[1; 3]" = Some (UArrayRepeat (n 1) 3) /\ pl "[1; N]" = None /\ pl "[1, 2,]" = Some (UArrayLiteral [n 1; n 2]) /\
+    pl "1..3" = Some (URange 1 3 UnspecifiedU) /\
+    pl "[1..3, 0u8..2]" = Some (UArrayLiteral [URange 1 3 UnspecifiedU; URange 0 2 U8]).
+  Proof. repeat split; vm_compute; reflexivity. Qed.
+
+  (* structs (no shorthand field: it would read a variable) and enums, nested *)
+  Example lit_structs_enums :
+    pl "S { a: 1, b: [true, false] }" =
+      Some (UStructLiteral (x_ "S") [(x_ "a", n 1); (x_ "b", UArrayLiteral [UTrue; UFalse])]) /\
+    pl "S { a }" = None /\ pl "S { }" = Some (UStructLiteral (x_ "S") []) /\
+    pl "E::V(1, (2, 3))" = Some (UEnumLiteral (x_ "E") (x_ "V") (Some [n 1; UTupleLiteral [n 2; n 3]])) /\
+    pl "E::V" = Some (UEnumLiteral (x_ "E") (x_ "V") None) /\ pl "E::V()" = Some (UEnumLiteral (x_ "E") (x_ "V") (Some [])) /\
+    pl "[S { a: E::A(-1i8) }; 2usize]" =
+      Some (UArrayRepeat (UStructLiteral (x_ "S") [(x_ "a", UEnumLiteral (x_ "E") (x_ "A") (Some [UNumSigned (-1) I8]))]) 2).
+  Proof. repeat split; vm_compute; reflexivity. Qed.
+End LiteralExamples.
